@@ -6,6 +6,12 @@ in lists/dicts, shared, in cycles, as pre-/init-tasks).  Monitor (implementation
 of the graph using the replacements.  Correspondence: the Lean model (Drive/C20.lean) computes the type identifier of
 every class from the class table (own identifier + `deprecatedOf`) and from it every raw/full identifier.
 
+(c) loading: the same libraries in two versions — version 1 (the Old classes are plain classes with their own identifier)
+builds the graphs and saves them (state_dict, save, params.json of a GENERATE_ONLY job) in one process, version 2 (the same source
+with `@deprecate`) loads them in a fresh process (from_state_dict, load, from_task_dir).  Monitor: every loaded node, and a fresh
+task taking a loaded node as parameter / list element / dict value, has the identifier of the graph built under version 2
+(key `loaded-before-deprecation-keeps-old-identifier`); correspondence: the model's identifiers of the version-2 class table.
+
 (b) the repair command: workspaces made by really running experiments (instant launcher: nothing spawned), runtime
 deprecation (`Old.__xpmtype__.deprecate()`), then histories of the real `fix_deprecated` / `deprecated list` command
 with every flag combination, repeated, interrupted (between and inside steps), on trees with links from earlier repairs,
@@ -272,6 +278,153 @@ def correspond_a(ctx):
             what = "model: re-classing changed an identifier (contradicts sig_deprecated)"
         if what:
             ctx.disagree({"part": "a", "graph_old": case["graph_old"], "sel": case["sel"]}, {"a": mo_a, "b": mo_b}, {"a": a, "b": b}, what)
+
+
+# ======================================================================================= (c) saved before the deprecation, loaded after it
+
+
+def gen_c(ctx, rng, nlibs, per, tag):
+    """libraries in two versions (v1: the Old classes are plain classes with their own identifier; v2: the same source with
+    @deprecate) + graphs using the Old classes, saved under v1 and loaded under v2 in fresh processes"""
+    libs, cases = [], []
+    for li in range(nlibs):
+        lib = gen_a_library(rng, f"{tag}_{ctx.seed}_{li}")
+        lib["classes"].append({"name": "Wrap", "xpmid": f"{lib['pkg']}.wrap", "parent": None, "kind": "task", "deprecated": False, "twin_of": "-",
+                               "args": [{"name": "item", "decl": "param", "ty": {"cfg": "Config"}, "optional": True},
+                                        {"name": "items", "decl": "param", "ty": {"list": {"cfg": "Config"}}, "optional": False},
+                                        {"name": "named", "decl": "param", "ty": {"dict": {"cfg": "Config"}}, "optional": False}]})
+        libs.append(lib)
+        kinds = {c["name"]: c["kind"] for c in lib["classes"]}
+        for _ in range(per):
+            g = cfggen.gen_graph(rng, lib, max_nodes=rng.choice([3, 6, 10]), cycles=rng.random() < 0.3)
+            cands = [(k, old_variants(lib, nd["cls"])) for k, nd in enumerate(g["nodes"])]
+            cands = [(k, v) for k, v in cands if v]
+            if not cands:
+                continue
+            rng.shuffle(cands)
+            chosen = cands[:rng.choice([1, 1, 2, 3, len(cands)])]
+            ga = copy.deepcopy(g)
+            for k, variants in chosen:
+                ga["nodes"][k]["cls"] = rng.choice(variants)
+            cases.append({"id": len(cases), "lib": li, "graph": ga, "sel": sorted(k for k, _ in chosen),
+                          "root_is_task": kinds[ga["nodes"][0]["cls"]] == "task"})
+    return libs, cases
+
+
+def run_c(ctx, libs, cases, shards):
+    """phase 1 (version 1, save) then phase 2 (version 2, load), each in fresh processes; returns (save records, load records)"""
+    from concurrent.futures import ThreadPoolExecutor
+
+    tmp = ctx.tmpdir()
+    nsh = max(1, min(shards, len(libs)))
+    run_id = f"{int(time.time() * 1000) % 10 ** 9}"
+    parts = []
+    for sh in range(nsh):
+        lis = [li for li in range(len(libs)) if li % nsh == sh]
+        pcases = [dict(c, lib=lis.index(c["lib"])) for c in cases if c["lib"] in lis]
+        parts.append((sh, lis, pcases))
+    res = {}
+    for mode in ("save", "load"):
+        def payload(sh, lis, pcases):
+            ls = [libs[li] for li in lis]
+            if mode == "save":
+                ls = [dict(l, classes=[dict(c, deprecated=False) for c in l["classes"]]) for l in ls]
+            return {"mode": mode, "root": str(tmp / f"c20c-{run_id}-{sh}"), "libs": ls,
+                    "cases": [{"id": c["id"], "lib": c["lib"], "graph": c["graph"], "sel": c["sel"], "root_is_task": c["root_is_task"]} for c in pcases]}
+        with ThreadPoolExecutor(max_workers=16) as ex:
+            futs = [(pcases, ex.submit(identlib.run_worker, payload(sh, lis, pcases), tmp, f"c20c-{run_id}-{mode}-{sh}", None, "xv.impl.c20_worker"))
+                    for sh, lis, pcases in parts]
+            out = {}
+            for pcases, fut in futs:
+                for c, r in zip(pcases, fut.result()):
+                    out[c["id"]] = r
+        res[mode] = [out[c["id"]] for c in cases]
+    return res["save"], res["load"]
+
+
+LOADED_KEY = "loaded-before-deprecation-keeps-old-identifier"
+
+
+def evaluate_c(ctx, libs, cases, srecs, lrecs, with_model=True):
+    good = []
+    nerr = 0
+    for case, sr, lr in zip(cases, srecs, lrecs):
+        if sr["error"] or lr["error"]:
+            nerr += 1
+            ctx.count("c_case_errors", (sr["error"] or lr["error"])[:80])
+            continue
+        for v, ok in sr["saved"].items():
+            ctx.count("c_saved", f"{v}: {'yes' if ok is True else str(ok)[:60]}")
+        for v, e in lr["load_errors"].items():
+            ctx.count("c_load_errors", f"{v.rstrip('0123456789')}: {e[:70]}")
+        exp = lr["expected"]
+        old = sr["old"]
+        go = case["graph"]
+        for k in case["sel"]:
+            ctx.count("c_former_identifier_differs", old[k][0] != exp[k][0])
+            for p in node_position(go, k):
+                ctx.count("c_deprecated_position", p)
+        failed = False
+        for v, rows in lr["variants"].items():
+            ctx.count("c_loaded", f"{v}: {len(rows)} nodes" if len(rows) < 4 else f"{v}: 4+ nodes")
+            for k, full, raw in rows:
+                if (full, raw) != (exp[k][0], exp[k][1]) and not failed:
+                    failed = True
+                    former = "its former identifier" if full == old[k][0] else "another identifier"
+                    ctx.monitor_fail(LOADED_KEY,
+                                     f"{v}: node {k} ({go['nodes'][k]['cls']}) of a graph saved while the classes {sorted({go['nodes'][s]['cls'] for s in case['sel']})} "
+                                     f"were plain classes and loaded after they were marked @deprecate has {former} {full[:16]}… (raw {raw[:16]}…); the same graph built now "
+                                     f"(= with the replacement classes) has {exp[k][0][:16]}… (raw {exp[k][1][:16]}…)",
+                                     {"part": "c", "lib": libs[case["lib"]], "graph": go, "sel": case["sel"], "root_is_task": case["root_is_task"], "variant": v})
+        for k, got, want in lr["wrap"]:
+            ctx.count("c_fresh_task_with_loaded_parameter", got == want)
+            if got != want and not failed:
+                failed = True
+                ctx.monitor_fail(LOADED_KEY,
+                                 f"fresh task taking loaded node {k} ({go['nodes'][k]['cls']}, saved before its class was deprecated) as parameter / list element / dict value "
+                                 f"has identifier {got[:16]}…, with the freshly built node {want[:16]}…: the job would be stored and looked up in another directory",
+                                 {"part": "c", "lib": libs[case["lib"]], "graph": go, "sel": case["sel"], "root_is_task": case["root_is_task"], "variant": "fresh-task-parameter"})
+        ctx.case({"part": "c", "graph": go, "sel": case["sel"]}, any(s != 0 for s in case["sel"]) and bool(lr["variants"]))
+        good.append((case, lr))
+    if nerr > len(cases) * 0.15:
+        bad = next(r for pair in zip(srecs, lrecs) for r in pair if r["error"])
+        raise RuntimeError(f"too many failing save/load cases ({nerr}/{len(cases)}): {bad['error']} {bad.get('trace', '')[-600:]}")
+    if not with_model or not good:
+        return
+    lines = []
+    for case, lr in good:
+        names, table = class_table(libs[case["lib"]])
+        lines.append({"op": "ids", "classes": table, "sel": [],
+                      "nodes": [{"cls": names.index(sn["cls"]), "args": nd["args"], "task": nd["task"], "meta": nd["meta"], "pre": nd["pre"], "init": nd["init"]}
+                                for nd, sn in zip(lr["nodes"], case["graph"]["nodes"])]})
+    try:
+        outs = common.run_driver("C20", lines)
+    except Exception as e:
+        ctx.disagree({"driver": "C20"}, None, None, f"model driver failed: {e}")
+        return
+    for (case, lr), mo in zip(good, outs):
+        ctx.traces_validated += 1
+        exp = lr["expected"]
+        what = None
+        if mo["full"] != [e[0] for e in exp] or mo["raw"] != [e[1] for e in exp]:
+            what = "identifiers of the freshly built graph (version 2) differ between model and implementation"
+        else:
+            for v, rows in lr["variants"].items():
+                for k, full, raw in rows:
+                    if (full, raw) != (mo["full"][k], mo["raw"][k]) and what is None:
+                        what = f"{v}: identifier of loaded node {k} differs from the model's identifier of the deprecated class (sig_deprecated: that of the replacement)"
+        if what:
+            ctx.disagree({"part": "c", "graph": case["graph"], "sel": case["sel"]}, {"full": mo["full"], "raw": mo["raw"]},
+                         {"expected": exp, "loaded": lr["variants"]}, what)
+
+
+def correspond_c(ctx):
+    rng = ctx.rng
+    libs, cases = gen_c(ctx, rng, ctx.scale(4, 24), ctx.scale(30, 100), "c20c")
+    t0 = time.time()
+    srecs, lrecs = run_c(ctx, libs, cases, shards=ctx.scale(4, 12))
+    evaluate_c(ctx, libs, cases, srecs, lrecs)
+    ctx.notes.append(f"(c) {len(cases)} graphs saved under version 1 and loaded under version 2: {time.time() - t0:.1f}s")
 
 
 # ======================================================================================= (b) the repair command
@@ -739,7 +892,10 @@ def correspond(ctx):
                 "below the root.  (b) workspace history: 2-7 jobs really run (instant launcher) under Old/New task and configuration classes, runtime "
                 "deprecation (1-2 generations, chains), 1-8 calls of the real command (all flag combinations, API or CLI, second runs, interruptions between "
                 "and inside steps, relative path), deleted directories, missing/unloadable params.json, conflicts, resubmission; one case per command call; "
-                "non-trivial = the call changes the tree or the tree already holds links; distinct = case hash")
+                "non-trivial = the call changes the tree or the tree already holds links.  (c) library in two versions (Old classes plain / @deprecate), graph with Old "
+                "classes saved under version 1 (state_dict of all nodes, save of the root, params.json of a GENERATE_ONLY job) and loaded under version 2 in a fresh process "
+                "(from_state_dict, load, from_task_dir), every loaded node and a fresh task taking a loaded node (parameter, list element, dict value) compared with "
+                "the graph built under version 2; non-trivial = deprecated class below the root; distinct = case hash")
     ctx.assumptions += ["SHA-256 and the identifier of a *fresh* configuration are those of C01's model (the expected new identifier of a job is computed by the real "
                         "code on a freshly built configuration, not by reloading params.json)",
                         "the two glob calls of fix_deprecated yield every matching entry that exists when its directory is listed (their actual order is recorded "
@@ -747,6 +903,7 @@ def correspond(ctx):
                         "links in the jobs tree point to job locations of the same workspace (links created by the command itself, or dangling)"]
     ctx.notes.append(f"command-line wiring of --cleanup read from cli/__init__.py: {cli_wiring()}")
     correspond_a(ctx)
+    correspond_c(ctx)
     correspond_b(ctx)
 
 
@@ -789,6 +946,9 @@ def search(ctx):
     for case, rec in zip(cases, res):
         if not rec["error"]:
             monitor_a(ctx, case, rec)
+    clibs, ccases = gen_c(ctx, rng, 6, 40, "c20cs")
+    srecs, lrecs = run_c(ctx, clibs, ccases, shards=6)
+    evaluate_c(ctx, clibs, ccases, srecs, lrecs, with_model=False)
     known = known_keys()
     rounds = 0
     while time.time() - t0 < ctx.scale(60, 240) and not [m for m in ctx.monitor_failures if m["key"] not in known]:
@@ -805,6 +965,11 @@ def replay(ctx, obj):
         if case.get("part") == "b":
             c = {"lib": case["lib"], "jobs": case["jobs"], "ops": case["ops"]}
             evaluate_ws(ctx, [c], run_ws_cases(ctx, [c], shards=1), with_model=False)
+            n += 1
+        elif case.get("part") == "c":
+            c = {"id": 0, "lib": 0, "graph": case["graph"], "sel": case["sel"], "root_is_task": case.get("root_is_task", False)}
+            srecs, lrecs = run_c(ctx, [case["lib"]], [c], shards=1)
+            evaluate_c(ctx, [case["lib"]], [c], srecs, lrecs, with_model=False)
             n += 1
         elif "graph_old" in case:
             print("identifier case: re-run `./check C20` (the class library is regenerated from the seed)")
